@@ -1266,7 +1266,14 @@ lyd_diff_apply_r(struct lyd_node **first_node, struct lyd_node *parent_node, con
             meta_str = "yang:value";
         }
         meta = lyd_find_meta(diff_node->meta, NULL, meta_str);
-        LY_CHECK_ERR_RET(!meta, LOGERR_META(ctx, meta_str, diff_node), LY_EINVAL);
+        if (!meta) {
+            LOGERR_META(ctx, meta_str, diff_node);
+            if (op == LYD_DIFF_OP_CREATE) {
+                /* the duplicate was not inserted anywhere */
+                lyd_free_tree(match);
+            }
+            return LY_EINVAL;
+        }
         str_val = lyd_get_meta_value(meta);
 
         /* insert/move the node */
